@@ -12,8 +12,8 @@ from inspect import Parameter
 
 import numpy
 
-from .core import (KGChannel, KGChannelDir, KGLambda, KGSym, KlongException,
-                   bknp, is_dict, is_empty, is_list, kg_read_array, kg_write,
+from .core import (KGCall, KGChannel, KGChannelDir, KGLambda, KGSym, KlongException,
+                   bknp, copy_lambda, is_dict, is_empty, is_list, kg_read_array, kg_write,
                    reserved_fn_args, reserved_fn_symbol_map, safe_eq, safe_inspect)
 
 
@@ -757,7 +757,7 @@ def eval_sys_read(klong):
     else:
         i,a = kg_read_array(r, 0, klong._backend, module=klong.current_module())
         f.raw.seek(k+i,0)
-        return a
+        return klong.call(a) if isinstance(a, KGCall) and a.a is copy_lambda else a
 
 
 def eval_sys_read_line(klong):
@@ -805,7 +805,8 @@ def eval_sys_read_string(klong, x):
 
     """
     _, a = kg_read_array(x, 0, klong._backend, module=klong.current_module(), read_neg=True)
-    return a
+    # a dictionary is read as a deferred copy of its literal: evaluate it to get the dictionary
+    return klong.call(a) if isinstance(a, KGCall) and a.a is copy_lambda else a
 
 
 def eval_sys_system(x):
